@@ -177,7 +177,7 @@ func newC06Table(kind, name, alias string, rows int) *c06Table {
 	return tb
 }
 
-var c06Shapes = []string{"none", "where", "distinct", "order_by", "group_by", "join", "in_subquery", "scalar_subquery", "limit_small", "limit_large", "order_by_limit"}
+var c06Shapes = []string{"none", "where", "distinct", "order_by", "group_by", "join", "in_subquery", "scalar_subquery", "limit_small", "limit_large", "order_by_limit", "count_star"}
 
 // checkC06: one fault per run, injected into the data or the disk under a real
 // file datasource, below a generated query shape. A query that has to consume
@@ -304,6 +304,9 @@ func checkC06(r *Run) {
 			return fmt.Sprintf("SELECT %s FROM %s%s LIMIT 100000", main.id, main.ref(), where(mWhere))
 		case "order_by_limit":
 			return fmt.Sprintf("SELECT %s FROM %s%s ORDER BY %s LIMIT 3", main.id, main.ref(), where(mWhere), main.id)
+		case "count_star":
+			// uses no column of the table at all: the optimiser may prune every field of the datasource
+			return fmt.Sprintf("SELECT COUNT(*) AS c FROM %s%s", main.ref(), where(mWhere))
 		}
 		panic("shape")
 	}
